@@ -8,6 +8,7 @@ from typing import Dict, List
 from harness import tlc
 
 _RE_P = re.compile(r'<<\s*"@@P@@",\s*(\d+),\s*(\d+)\s*>>')
+_RE_S = re.compile(r'<<\s*"@@SFL@@",\s*(\d+),\s*(?:(\d+),\s*)?\{([^{}]*)\}\s*>>')   # state-predicate flags (tid, [l,] set)
 _RE_F = re.compile(r'<<\s*"@@FLG@@",\s*(\d+),\s*\{([^{}]*)\}\s*>>')   # TLC wraps long values over lines
 
 
@@ -16,6 +17,7 @@ class Verdict:
         self.need = need
         self.maxl = 0
         self.flags = None   # None = trace not consumed completely
+        self.sflags = {}    # state-predicate flags -> position of the first state that raised them
 
     @property
     def consumed(self):
@@ -49,6 +51,13 @@ def validate(module: str, cfg: str, traces: List[dict], timeout=900, batch=1500)
             v.maxl = max(v.maxl, int(m.group(2)))
         for m in _RE_F.finditer(r.out):
             vs[int(m.group(1))].flags = set(re.findall(r'"([^"]+)"', m.group(2)))
+        for m in _RE_S.finditer(r.out):
+            v = vs[int(m.group(1))]
+            for f in re.findall(r'"([^"]+)"', m.group(3)):
+                v.sflags.setdefault(f, int(m.group(2)) if m.group(2) else 0)
+        for v in vs.values():
+            if v.flags is not None:
+                v.flags |= set(v.sflags)
         for i, tr in enumerate(chunk):
             out[b0 + i] = vs[i + 1]
     validate.last_stats = stats
